@@ -2641,16 +2641,23 @@ func (t *Terminal) printHeader() {
 		return
 	}
 
+	// Rows are reserved for all --header-lines even when the input has fewer
+	// records (so far); draw the missing ones as empty lines so that their rows
+	// are cleared when the layout changes
+	headerLines := append([]string{}, t.header...)
+	for len(headerLines) < t.headerLines {
+		headerLines = append(headerLines, "")
+	}
 	t.withWindow(t.headerWindow, func() {
 		var lines []string
 		if !t.headerLinesShape.Visible() {
-			lines = t.header
+			lines = headerLines
 		}
 		t.printHeaderImpl(t.headerWindow, t.headerBorderShape, t.header0, lines)
 	})
 	if t.headerLinesShape.Visible() {
 		t.withWindow(t.headerLinesWindow, func() {
-			t.printHeaderImpl(t.headerLinesWindow, t.headerLinesShape, nil, t.header)
+			t.printHeaderImpl(t.headerLinesWindow, t.headerLinesShape, nil, headerLines)
 		})
 	}
 }
